@@ -101,6 +101,9 @@ type suite interface {
 
 var suites = map[string]func() suite{}
 
+// harnessSeed is the -seed of this run (suites that derive their own PRNG streams use it)
+var harnessSeed int64
+
 func main() {
 	if len(os.Args) < 2 {
 		fmt.Fprintln(os.Stderr, "usage: harness gen|run ...")
@@ -119,6 +122,7 @@ func main() {
 	in := fs.String("in", "", "input script")
 	out := fs.String("out", "", "output trace")
 	fs.Parse(os.Args[2:])
+	harnessSeed = *seed
 	mk, ok := suites[*suiteName]
 	if !ok {
 		var names []string
